@@ -2353,6 +2353,9 @@ class Array:
         if len(self._data) > 0:
             self.dtype = np.result_type(*[d.dtype for d in self._data])
             self._data = [np.asarray(a, dtype=self.dtype) for a in self._data]
+        else:
+            # no block to read the dtype from: common dtype of the operands, as the compiled version gives
+            self.dtype = np.result_type(self.dtype, other.dtype)
         return self
 
     def binary_blockwise(self, func, other, *args, **kwargs):
